@@ -16,7 +16,19 @@ def majority(forms):
     return best, [k for k, v in forms.items() if v == best][0]
 
 
+def _resolve_anchors(P):
+    """the membership lookup may live in its own helper or directly in the Get.mem slot of the collector"""
+    global LOOKUPS
+    if P.fn('GC_Mem_Ptr', required=False) is None:
+        alt = P.slot('GC', 'Get', 'mem', required=False)
+        if alt:
+            LOOKUPS = [alt if x == 'GC_Mem_Ptr' else x for x in LOOKUPS]
+    elif 'GC_Mem_Ptr' not in LOOKUPS:
+        LOOKUPS = ['GC_Mem_Ptr'] + [x for x in LOOKUPS if x in ('GC_Rem_Ptr', 'GC_Mark_Item')]
+
+
 def check_probe_agreement(P, ctx, rule='C17.probe-agreement'):
+    _resolve_anchors(P)
     fr = {}
     for f in LOOKUPS + [INSERT]:
         fr[f] = probe.lookup_fragments(P, f)
@@ -156,6 +168,7 @@ def check_entry_moves_whole(P, ctx, rule='C17.entry-moves-whole'):
     disp = [(n, c) for n, c in F.conds if ir.fmt(c) in ('(P <= J)', '(P < J)')]
     ok = len(disp) == 1
     detail = []
+    NXd = util.Norm(P, fn, expand_locals=True, inline=False)
     if ok:
         branch = g.reach_from([v for v, l in disp[0][0]['succ'] if l is True][0], cut_nodes=[v for v, l in disp[0][0]['succ'] if l is False])
         partial = {}
@@ -168,10 +181,11 @@ def check_entry_moves_whole(P, ctx, rule='C17.entry-moves-whole'):
             for ev in util.expr_events(n['expr'], n):
                 if ev['t'] != 'write':
                     continue
-                lhs = ir.top_nocast(ev['lhs'])
+                raw = ir.top_nocast(ev['lhs'])
+                lhs = ir.top_nocast(NXd.canon(ev['lhs']))        # `*slot` with slot = &entries[i] is entries[i]
                 if lhs[0] in ('dot', 'arrow') and lhs[2] in fields:
                     partial.setdefault(ir.fmt(lhs[1]), set()).add(lhs[2])
-                elif (lhs[0] == 'local' and ltypes.get(lhs[2]) == 'struct GCEntry') or (lhs[0] == 'idx' and util.mentions_field(lhs, 'entries')):
+                elif (raw[0] == 'local' and ltypes.get(raw[2]) == 'struct GCEntry') or (lhs[0] == 'idx' and util.mentions_field(lhs, 'entries')):
                     whole += 1
         for tgt, fl in partial.items():
             if fl != fields:
